@@ -26,7 +26,8 @@ SRC = 'hpfeeds/broker/auth/json.py'
 
 class Unsupported(Exception):
     def __init__(self, node, why):
-        super().__init__('%s:%s: %s: %s' % (SRC, getattr(node, 'lineno', '?'), why,
+        where = SRC if isinstance(node, ast.AST) else 'hpfeeds/broker/auth'
+        super().__init__('%s:%s: %s: %s' % (where, getattr(node, 'lineno', '?'), why,
                                             ast.dump(node)[:200] if isinstance(node, ast.AST) else node))
 
 
